@@ -235,6 +235,20 @@ func (p *Parser) parse(path string, imported bool) (Program, error) {
 	if err != nil {
 		return Program{}, err
 	}
+
+	// Blank and comment-only lines carry no meaning: collapse every run of newline tokens
+	// into one and drop the one at the very start and the one right before the end of the file.
+	tokens = slices.CompactFunc(tokens, func(a lexer.Token, b lexer.Token) bool {
+		return a.Type() == lexer.NEWLINE && b.Type() == lexer.NEWLINE
+	})
+
+	if len(tokens) > 0 && tokens[0].Type() == lexer.NEWLINE {
+		tokens = tokens[1:]
+	}
+
+	if n := len(tokens); n > 1 && tokens[n-2].Type() == lexer.NEWLINE && tokens[n-1].Type() == lexer.EOF {
+		tokens = slices.Delete(tokens, n-2, n-1)
+	}
 	p.index = 0
 	p.tokens = tokens
 	p.path = path
